@@ -74,8 +74,21 @@ func judgeAfter(in, prev []byte) (bool, string) {
 			return true, fmt.Sprintf("decoding the re-encoding of %x and encoding again gives %x (err %v)", in, out2, err)
 		}
 	}
+	// the forwarded bytes stay what they are while the next frame is handled
+	var o lorawan.PHYPayload
+	if err := o.UnmarshalBinary(append([]byte{}, otherFrame...)); err == nil {
+		if ob, err := o.MarshalBinary(); err != nil || !bytes.Equal(ob, otherFrame) {
+			return true, fmt.Sprintf("after %x was decoded and re-encoded, the frame %x re-encodes to %x (err %v)", in, otherFrame, ob, err)
+		}
+	}
+	if !bytes.Equal(out, in) {
+		return true, fmt.Sprintf("the re-encoding of %x read the same bytes; after the frame %x was decoded and encoded the returned slice reads %x", in, otherFrame, out)
+	}
 	return true, ""
 }
+
+// otherFrame: a confirmed uplink with FOpts, FPort and payload, handled after the frame under test
+var otherFrame = []byte{0x80, 0xd4, 0xc3, 0xb2, 0xa1, 0x82, 0x21, 0x43, 0x02, 0x0d, 0x07, 0x11, 0x22, 0x33, 0x44, 0x55, 0x66, 0x77, 0x88}
 
 func checkCanon(c canonCase) evid.Outcome {
 	if len(c.Bytes) > 0 && c.Bytes[0]&0x1c != 0 {
